@@ -127,8 +127,18 @@ def ids_of(x, ext, ref):
     return tf.frame_ids(x, 1.0 if ext in ("h5", "xtc", "trr") else 10.0)
 
 
-def run_impl(path, ext, n_atoms, ref, ops, atom_idx=None, handles=None):
+def narrow(v):
+    """the integer as the narrowest numpy integer type that holds it (np.uint8(200), np.int8(-5)): an accepted argument type"""
+    for ty in (np.uint8, np.int8, np.uint16, np.int16):
+        if np.iinfo(ty).min <= v <= np.iinfo(ty).max:
+            return ty(v)
+    return np.int64(v)
+
+
+def run_impl(path, ext, n_atoms, ref, ops, atom_idx=None, handles=None, numpy_ints=False):
     """ops: list of ops (single handle) or list of (handle, op) when handles=2.  -> list of output tokens"""
+    if numpy_ints:
+        ops = [(o[0], narrow(o[1])) if len(o) > 1 else o for o in ops]
     hs = [tf.open_file(path, ext, n_atoms) for _ in range(handles or 1)]
     outs, errs = [], []
     try:
@@ -294,6 +304,12 @@ def run(ctx):
             ctx.count("two-handle scripts")
             continue
         spec, _, eofs = spec_run(n, ops)
+        # the same script with its integers given as narrow numpy integers: the same outputs
+        if j % 3 == 0 and any(len(o) > 1 for o in ops):
+            impl_np, _ = run_impl(path, ext, n_atoms, ref, ops, ai, None, numpy_ints=True)
+            ctx.count("scripts repeated with numpy integer arguments")
+            if impl_np != impl:
+                seen_keys.setdefault("%s|numpy-integer-arguments" % ext, dict(ext=ext, n_frames=n, ops=[tok(o) for o in ops], got=impl_np, expected=impl, numpy_ints=True))
         nontriv = any(o[0] in ("r", "ra") for o in ops) and (ext == "arc" or any(o[0] in ("s", "d", "t") for o in ops))
         ctx.case(dict(ext=ext, n_frames=n, ops=[tok(o) for o in ops], atom_indices=ai, out=impl),
                  (ext, n, tuple(ops), tuple(ai or ())) if nontriv else None)
@@ -362,9 +378,25 @@ def run(ctx):
         if bad:
             ctx.violation("dcd|fixed-atoms|history", ".dcd file with fixed atoms, history %s: %s" % ("; ".join(log), bad), dict(ops=log))
             break
+    # ---- longer files, positions and counts beyond the range of the narrow types (np.uint8(200), np.int8(100)): the arithmetic of the cursor
+    # must not be done in the type of the argument
+    for ext in ("h5", "nc", "xtc", "dcd", "trr", "xyz"):
+        try:
+            path, n_atoms, ref = files.get(ext, 300)
+        except Exception as e:  # noqa: BLE001
+            ctx.broke("harness:long-file", "%s: %s" % (ext, e)); continue
+        for ops in ([("s", 100), ("r", 200), ("t",)], [("s", 100), ("r", 100), ("t",), ("r", 60), ("t",)], [("s", 200), ("d", -60), ("r", 100), ("t",), ("l",)],
+                    [("r", 130), ("r", 130), ("t",), ("d", -120), ("t",)]):
+            got, _ = run_impl(path, ext, n_atoms, ref, ops, None, None, numpy_ints=True)
+            spec, _, _ = spec_run(300, ops)
+            ctx.case(None, ("long", ext, tuple(ops))); ctx.count("scripts on 300-frame files with narrow numpy integers")
+            if got != spec:
+                short = lambda l: [x if len(x) < 30 else x[:12] + "…" + x[-12:] for x in l]
+                seen_keys.setdefault("%s|numpy-integer-arguments" % ext, dict(ext=ext, n_frames=300, ops=[tok(o) for o in ops], got=short(got), expected=short(spec), numpy_ints=True))
     for key, rp in seen_keys.items():
-        ctx.violation(key, "%s file object, %d frames, script %s: got %s, cursor semantics give %s" % (
-            rp["ext"], rp["n_frames"], rp["ops"], rp["got"], rp["expected"]), rp)
+        ctx.violation(key, "%s file object, %d frames, script %s%s: got %s, %s %s" % (
+            rp["ext"], rp["n_frames"], rp["ops"], " with its integers given as narrow numpy integers" if rp.get("numpy_ints") else "", rp["got"],
+            "with Python integers" if rp.get("numpy_ints") else "cursor semantics give", rp["expected"]), rp)
 
 
 def replay(ctx, path):
